@@ -807,7 +807,31 @@ def _hist_case(kind, variant, configs, steps):
     return c
 
 
-def _small_pair(rng):
+def _wc_flip_pair(rng):
+    """The graph with MORE atoms has the fewer non-wildcard atoms: pruning flips which graph is the pattern."""
+    a = G.random_relabel(_rand(rng, rng.randint(1, 3), 0.5), rng, 1, 15)
+    b = G.random_relabel(_rand(rng, rng.randint(2, 4), 0.5), rng, 1, 15)
+    while len(a["nodes"]) >= len(b["nodes"]):
+        b = G.random_relabel(_rand(rng, len(a["nodes"]) + rng.randint(1, 2), 0.5), rng, 1, 15)
+    a = _gcopy(a)
+    top = max(n for n, _ in a["nodes"])
+    for i in range(len(b["nodes"]) - len(a["nodes"]) + rng.randint(1, 2)):      # a gets more atoms than b, all wildcards
+        a["nodes"].append([top + 1 + i, {"element": "*", "charge": 0}])
+        a["edges"].append([rng.choice(a["nodes"][:-1])[0], top + 1 + i, {"order": 1}])
+    return (a, b) if rng.random() < 0.5 else (b, a)
+
+
+def _prune_flip(rng, n):
+    out = []
+    for t in range(n):
+        g1, g2 = _wc_flip_pair(rng)
+        out.append(_mk("prune-flip", g1, g2, rng.random() < 0.7, prune_wc=True, implicit=rng.random() < 0.3))
+    return out
+
+
+def _small_pair(rng, wc=False):
+    if wc and rng.random() < 0.5:
+        return _wc_flip_pair(rng)
     z = rng.random()
     if z < 0.4:
         return _planted(rng, rng.randint(1, 5), rng.randint(1, 5))
@@ -827,13 +851,16 @@ def _histories(rng, n, calls=("fcs",)):
         two = rng.random() < 0.3
         base = dict(node_attrs=["element", "charge"] if two else ["element"], node_defaults=["*", 0] if two else ["*"],
                     edge_attrs=["order"], implicit=rng.random() < 0.3)
+        if variant == "matcher" and rng.random() < 0.35:
+            base["prune_wc"] = True
         configs = [base]
         if variant == "matcher" and rng.random() < 0.3:
             configs.append(dict(node_attrs=["element"] if two else ["element", "charge"], node_defaults=["*"] if two else ["*", 0],
                                 edge_attrs=["order"], prune_wc=rng.random() < 0.3))
         steps = []
         flavour = rng.choice(["pairs", "pairs", "swap", "edit", "edit", "mixed"])
-        g1, g2 = _small_pair(rng)
+        wc = bool(base.get("prune_wc"))
+        g1, g2 = _small_pair(rng, wc)
         for k in range(rng.randint(2, 5 if flavour == "pairs" else 4)):
             st = dict(mcs=rng.random() < 0.7, call=rng.choice(calls) if variant == "matcher" else "fcs",
                       reads=[rng.choice(_DIRS) for _ in range(rng.randint(1, 5))], positional=rng.random() < 0.3)
@@ -845,7 +872,7 @@ def _histories(rng, n, calls=("fcs",)):
                 pr = steps[-1]
                 f = flavour if flavour != "mixed" else rng.choice(["pairs", "swap", "edit", "same"])
                 if f == "pairs":
-                    a, b = _small_pair(rng)
+                    a, b = _small_pair(rng, wc)
                     if rng.random() < 0.5 and len(a["nodes"]) < len(b["nodes"]) and len(pr["g1"]["nodes"]) <= len(pr["g2"]["nodes"]):
                         a, b = b, a             # make the orientation flip between consecutive calls
                     st.update(g1=a, g2=b)
@@ -916,6 +943,25 @@ def _degenerate(rng, n):
                      dict(g1=g2, g2=g3, mcs=rng.random() < 0.6, reads=["G1_to_G2", "kw"], src_g1=[0, "g2"]),
                      dict(g1=g3, g2=g1, mcs=True, reads=["pattern_to_host", "G2_to_G1"], src_g1=[1, "g2"], src_g2=[0, "g1"])]
             out.append(_hist_case("history/degenerate", variant, [cfg], steps))
+    return out
+
+
+def _falsy_order(rng, n):
+    """A graph and a relabelled copy; bonds of order 0 / 0.0 (falsy) on one side are a MISSING order on the other side for some
+    bonds (must not be mapped onto each other in the Matcher copy, where only missing matches missing), equal 0 for others."""
+    out = []
+    for t in range(n):
+        g1 = _rand(rng, rng.randint(2, 4), 0.7, connected=True)
+        for e in g1["edges"]:
+            e[2]["order"] = rng.choice([0, 0.0, 0, 1])
+        ids = [x for x, _ in g1["nodes"]]
+        g2 = _gcopy(G.shuffle_insertion(G.relabel(g1, dict(zip(ids, rng.sample(range(0, 12), len(ids))))), rng))
+        for e in g2["edges"]:
+            if e[2]["order"] == 0 and rng.random() < 0.6:
+                del e[2]["order"]
+        if rng.random() < 0.5:
+            g1, g2 = g2, g1
+        out.append(_mk("falsy-order", g1, g2, rng.random() < 0.7, implicit=rng.random() < 0.3))
     return out
 
 
@@ -998,5 +1044,7 @@ def gen_cases(tier, rng):
     cases += _histories(rng, 320 if tier == "quick" else 3000)
     cases += _histories(rng, 60 if tier == "quick" else 600, calls=("fcs", "rc_its", "component", "mcs_mol"))
     cases += _degenerate(rng, 120 if tier == "quick" else 1000)
+    cases += _prune_flip(rng, 60 if tier == "quick" else 500)
+    cases += _falsy_order(rng, 50 if tier == "quick" else 400)
     cases += _sizes(rng, 24 if tier == "quick" else 150)
     return cases
